@@ -8,7 +8,7 @@ size_t g_bin_len;                 /* number of objects in the recycle bin */
 KSI_DataHash *g_bin_appended;     /* object appended during the call (NULL = none) */
 unsigned g_bin_appends, g_bin_removes;
 _Bool g_bin_append_may_fail;
-struct KSI_DataHash_st g_recycled;   /* the object that sits last in the bin: ref == 0, stale contents */
+struct KSI_DataHash_st *g_recycled_p;   /* the (heap) object that sits last in the bin: ref == 0, stale contents; set by the harness */
 size_t g_bin_remove_pos;
 
 static size_t bin_length(KSI_LIST(KSI_DataHash) *l) { return g_bin_len; }
@@ -22,7 +22,7 @@ static int bin_remove(KSI_LIST(KSI_DataHash) *l, size_t pos, KSI_DataHash **o) {
 	__CPROVER_assert(g_bin_len > 0 && pos == g_bin_len - 1, "recycle bin: the last object is taken out");
 	if (nondet_bool()) return KSI_INVALID_STATE;
 	g_bin_remove_pos = pos; g_bin_removes++; g_bin_len--;
-	*o = &g_recycled;
+	*o = g_recycled_p;
 	return KSI_OK;
 }
 #endif
